@@ -346,7 +346,7 @@ def run_pool_ops(ed, ops, workers, drain_cap=40, resolved=False):
             out += pr.obs()
         if not resolved:
             n = 0
-            while not pr.quiet() and n < drain_cap:
+            while not pr.quiet() and n < drain_cap and sum(sizes(pr.engine, pr.handler)) <= 200:
                 n += 1
                 if pr.inflight:
                     pr.complete(0)
